@@ -27,6 +27,7 @@ fn profile_for(id: &str, tier: Tier, ctx: &Ctx) -> SProfile {
             p.p_sequential = 15;
             p.p_parser_error = 15;
             p.p_empty_brackets = 20;
+            p.log_fragments = true;
         }
         "C12" => {
             p.p_retry = 55;
